@@ -106,7 +106,30 @@ impl<'a> Ev<'a> {
 // ---- printing
 fn lvl(op: &str) -> u8 { match op { "or" => 1, "and" => 2, "in" | "not in" => 4, "==" | "!=" | "<" | "<=" | ">" | ">=" => 5, "+" | "-" => 6, "*" | "/" | "//" | "%" | "~" => 7, "**" => 8, _ => unreachable!() } }
 fn prec(e: &E) -> u8 { match e { E::Lit(V::Int(i)) if *i < 0 => 10, E::Lit(V::Float(f)) if *f < 0.0 || (*f == 0.0 && f.is_sign_negative()) => 10, E::Lit(_) | E::Var(_) | E::Arr(_) | E::Map(_) | E::Probe(..) | E::Comp(..) => 12, E::Attr(..) | E::Item(..) | E::Slice(..) => 11, E::Neg(_) => 10, E::Not(_) => 3, E::Bin(op, ..) => lvl(op), E::Tern(..) => 0, E::Filt(..) => 9, E::Test(..) => 4 } }
-fn lit(v: &V) -> String { match v { V::None => "none".into(), V::Bool(b) => b.to_string(), V::Int(i) => i.to_string(), V::Float(f) => { let s = format!("{f:?}"); if s.contains('e') { format!("{:.1}", f) } else { s } } V::Str(s) => format!("\"{s}\""), V::Arr(a) => format!("[{}]", a.iter().map(lit).collect::<Vec<_>>().join(", ")), _ => unreachable!() } }
+/// A string literal in one of the three quote styles, with the documented escapes (`\\ \" \' \/ \n \t \r`); the
+/// style is a function of the text so that every spelling of an expression agrees
+fn str_lit(s: &str) -> String {
+    let h = s.bytes().fold(s.len() as u32, |a, b| a.wrapping_mul(31).wrapping_add(b as u32));
+    // a back-quoted string cannot contain a back quote (there is no escape for it)
+    let q = match ['"', '\'', '`'][(h % 3) as usize] { '`' if s.contains('`') => '"', q => q };
+    let mut o = String::new();
+    o.push(q);
+    for c in s.chars() {
+        match c {
+            '\\' => o.push_str("\\\\"),
+            '\n' => o.push_str("\\n"),
+            '\t' => o.push_str("\\t"),
+            '\r' => o.push_str("\\r"),
+            c if c == q => { o.push('\\'); o.push(c); }
+            // the other quote characters and `/` may be escaped or not
+            '"' | '\'' | '/' if (h >> 3) % 2 == 0 => { o.push('\\'); o.push(c); }
+            c => o.push(c),
+        }
+    }
+    o.push(q);
+    o
+}
+fn lit(v: &V) -> String { match v { V::None => "none".into(), V::Bool(b) => b.to_string(), V::Int(i) => i.to_string(), V::Float(f) => { let s = format!("{f:?}"); if s.contains('e') { format!("{:.1}", f) } else { s } } V::Str(s) => str_lit(s), V::Arr(a) => format!("[{}]", a.iter().map(lit).collect::<Vec<_>>().join(", ")), _ => unreachable!() } }
 struct P<'r> { r: &'r mut R, full: bool }
 impl<'r> P<'r> {
     fn ws(&mut self) -> &'static str { if self.full { " " } else { [" ", " ", "  ", "\n", " \t "][self.r.b(5) as usize] } }
@@ -139,7 +162,7 @@ struct G<'r> { r: &'r mut R, pid: u64, in_comp: bool }
 impl<'r> G<'r> {
     fn leaf(&mut self, t: T) -> E { let r = &mut *self.r; match t {
         T::Num => match r.b(8) { 0 => E::Var("n".into()), 1 => E::Var("f".into()), 2 => E::Lit(V::Float([0.5, 2.0, -1.5, 0.0][r.b(4) as usize])), 3 => { self.pid += 1; E::Probe(self.pid, V::Int(r.b(4) as i128)) } 4 => E::Attr(Box::new(E::Var("m".into())), "n".into(), false), 5 => E::Lit(V::Int(-(r.b(3) as i128))), _ => E::Lit(V::Int(r.b(5) as i128)) },
-        T::Str => match r.b(6) { 0 => E::Var("s".into()), 1 => E::Attr(Box::new(E::Var("m".into())), "s".into(), false), 2 => { self.pid += 1; E::Probe(self.pid, V::Str("p".into())) } 3 => E::Lit(V::Str("".into())), _ => E::Lit(V::Str(["a", "b", "ab", "é"][r.b(4) as usize].into())) },
+        T::Str => match r.b(6) { 0 => E::Var("s".into()), 1 => E::Attr(Box::new(E::Var("m".into())), "s".into(), false), 2 => { self.pid += 1; E::Probe(self.pid, V::Str("p".into())) } 3 => E::Lit(V::Str("".into())), _ => E::Lit(V::Str(["a", "b", "ab", "é", "a\"b", "it's", "b\\s", "l\nb", "t\tb", "q`t", "sl/ash", "c\rd"][r.b(12) as usize].into())) },
         T::Bool => match r.b(5) { 0 => E::Var("t".into()), 1 => E::Lit(V::Bool(false)), 2 => { self.pid += 1; E::Probe(self.pid, V::Bool(r.b(2) == 0)) } 3 => E::Lit(V::None), _ => E::Lit(V::Bool(true)) },
         T::Arr => match r.b(4) { 0 => E::Var("xs".into()), 1 => E::Lit(V::Arr(vec![])), 2 => E::Attr(Box::new(E::Var("m".into())), "xs".into(), false), _ => E::Lit(V::Arr(vec![V::Int(1), V::Int(2), V::Str("a".into())])) },
         T::Map => E::Var("m".into()),
